@@ -76,7 +76,9 @@ fn check(c: &Case, ctx: &Ctx) -> Outcome {
     let dir = ctx.case_dir();
     let r: Result<(usize, usize, bool), Outcome> = (|| {
         must_ok(&build(ctx, &dir, "x", &samples, k, rc, 1), "ska build")?;
-        cli::write_fasta_auto(&dir.join("weed.fa"), &wrecs, if c.wrap == 0 { None } else { Some(c.wrap as usize) });
+        // headers with descriptions; several records may share their first token (e.g. copies of one element)
+        let wnames: Vec<String> = (0..wrecs.len()).map(|i| if c.wrap % 2 == 1 { format!("IS{} copy{i} len={}", i / 3, wrecs[i].len()) } else { format!("r{i}") }).collect();
+        cli::write_fasta(&dir.join("weed.fa"), &wnames, &wrecs, if c.wrap == 0 { None } else { Some(c.wrap as usize) });
         let (_d, full) = model_table(&samples, k, rc);
         let wset: BTreeSet<Vec<u8>> = model::build_sample(&wrecs, k, rc).keys().cloned().collect();
         let orig_bytes = std::fs::read(dir.join("x.skf")).map_err(|e| Outcome::Infra(e.to_string()))?;
